@@ -318,6 +318,86 @@ def rule_token_text(ck, facts):
     ck.floor(R, "token_text_reads", n, 3)
 
 
+def rule_keyword_space(ck, facts):
+    R = "C14.keyword-space"
+    ck.rule(R, "where the printer emits a word keyword token (if / else / let / letrec / fn / mod ...), a spacing document follows it before the next child is appended: either in the same match arm, or at the start of the branch that the arm's `seen_*` flag enables; otherwise the keyword and an operand that does not start with punctuation are glued together (`if gate {` becomes `ifgate {`, another program)")
+    from ..cfg import natural_loops
+    fmt = facts.crate(FMT)
+    KW = ("If", "Else", "Let", "LetRec", "Function", "Mod", "Match", "Type", "Use", "Pub", "Include", "Rec", "Alias", "Macro")
+    SP = ("space", "softline", "line", "hardline", "line_", "softline_")
+    n = 0
+    for f in fmt.fns:
+        if f.kind == "promoted" or "cst_print" not in f.path or "::tests" in f.path:
+            continue
+        cov = cover.coverage(facts, f, TK)
+        if not cov:
+            continue
+        loops = natural_loops(f)
+        for v in sorted(cov.primary_handled()):
+            if v not in KW or cov.arm_target(v) is None:
+                continue
+            tb = cov.arm_target(v)
+            inner = [l for l in loops if tb in l[1]]
+            hdr = [min(inner, key=lambda l: len(l[1]))[0]] if inner else []
+            stop = [cov.primary.block] + hdr
+            region = reachable(f, tb, stop=stop)
+            emits = [b for b in region if f.term(b)[KIND] == "call" and (callee(f.term(b)) or "").endswith("emit_token_with_trivia")]
+            if not emits:
+                continue
+            n += 1
+            after = set()
+            for b in emits:
+                after |= set(reachable(f, b, stop=stop))
+            spaced = any(b in region and f.term(b)[KIND] == "call" and (callee(f.term(b)) or "").split("::")[-1] in SP for b in after)
+            key = "kw|%s|%s" % (f.short.split("::")[-1], v)
+            if spaced:
+                ck.ok(R, key, {"keyword": v, "spacing": "in the arm"})
+                continue
+            # flags set in the arm and the branch they enable
+            flags = {st[4][0] for b in region for st in f.stmts(b) if st[KIND] == "a" and not st[4][1] and st[5][0] == "use" and st[5][1][0] == "c" and f.local_ty(st[4][0]) == "bool" and str(st[5][1][-1]) == "1" and f.dbg_names().get(st[4][0])}
+            from ..cfg import DefIndex
+            di = DefIndex(f)
+            enabled_spaced = None
+            for b in range(f.nblocks()):
+                t = f.term(b)
+                if f.is_cleanup(b) or t[KIND] != "switch" or t[4][0] not in ("cp", "mv") or t[4][1][1]:
+                    continue
+                # the tested value: the flag itself, a copy of it, or its negation
+                loc = t[4][1][0]
+                neg = False
+                for _ in range(3):
+                    if loc in flags:
+                        break
+                    d = di.single_def(loc)
+                    if d is None or d[1] is None:
+                        break
+                    rv = d[2][5]
+                    if rv[0] == "use" and rv[1][0] in ("cp", "mv") and not rv[1][1][1]:
+                        loc = rv[1][1][0]
+                    elif rv[0] == "un" and rv[1] == "not" and rv[2][0] in ("cp", "mv") and not rv[2][1][1]:
+                        loc = rv[2][1][0]
+                        neg = not neg
+                    else:
+                        break
+                if loc not in flags:
+                    continue
+                listed = {int(x): tb2 for x, tb2 in t[6]}
+                true_t = (t[7] if 0 in listed else listed.get(1)) if not neg else listed.get(0, t[7] if 1 in listed else None)
+                if true_t is None:
+                    continue
+                reg2 = reachable(f, true_t, stop=stop)
+                has_append = any(f.term(x)[KIND] == "call" and (callee(f.term(x)) or "").split("::")[-1] == "append" for x in reg2)
+                if not has_append:
+                    continue
+                sp2 = any(f.term(x)[KIND] == "call" and (callee(f.term(x)) or "").split("::")[-1] in SP for x in reg2)
+                enabled_spaced = sp2 if enabled_spaced is None else (enabled_spaced and sp2)
+            if enabled_spaced:
+                ck.ok(R, key, {"keyword": v, "spacing": "at the start of the branch its flag enables"})
+            else:
+                ck.bad(R, key, "%s emits the keyword `%s` and neither the arm nor the branch enabled by its flag appends a spacing document before the next child: with an operand that is not parenthesised the keyword and the operand are printed as one word (`if gate { .. }` is printed `ifgate { .. }`)" % (f.short, v.lower()), f.where(f.term(emits[0])))
+    ck.floor(R, "keyword_arms", n, 5)
+
+
 def run(ck, facts, tier):
     pm = ParserModel(facts)
     ck.floor("C14.anchor", "fmt_bodies", len(facts.crate(FMT).fns), 100)
@@ -326,6 +406,7 @@ def run(ck, facts, tier):
     rule_trivia_sinks(ck, facts)
     rule_no_postprocess(ck, facts)
     rule_token_text(ck, facts)
+    rule_keyword_space(ck, facts)
     from . import c13
 
     c13.rule_trivia(ck, facts, loss=False)  # the overwrite clause: trivia the formatter never gets to see
